@@ -1,0 +1,148 @@
+//go:build verif
+
+package keeper
+
+// Contracts for the deductive checker in /verif (comment-only; compiled only with -tags verif).
+// C10, registry side: registration of token pairs, toggling, metadata checks. Loaded together with
+// zz_contracts_c19_verif.go (abstract erc20 store) and zz_contracts_c10_verif.go (EVM access, leaf accessors).
+// Lib specs: verif/specs/c10r_pre, c10, c10r.
+
+/*@
+// ---- leaf store accessor
+func (Keeper).IsERC20Registered
+    trusted
+    ensures result == am_has[erc20]
+
+// (this file is read before zz_contracts_c19_verif.go: own names for the sorts of the abstract store declared there)
+alias RBytes []uint8
+alias RAddr github.com/ethereum/go-ethereum/common.Address
+alias RPair github.com/haqq-network/haqq/x/erc20/types.TokenPair
+sort RTpHas = (Array RBytes Bool)
+sort RTpVal = (Array RBytes RPair)
+sort RDmHas = (Array Str Bool)
+sort RDmVal = (Array Str RBytes)
+sort RAmHas = (Array RAddr Bool)
+sort RAmVal = (Array RAddr RBytes)
+
+// ---- registry invariant: every index entry points to a stored pair with that denomination / contract, every pair is stored
+// under its own id ...
+specfunc reg_inv(th RTpHas, tv RTpVal, dh RDmHas, dv RDmVal, ah RAmHas, av RAmVal) bool =
+        (forall id RBytes :: th[id] ==> tp_id(tv[id]) == id)
+        && (forall d string :: dh[d] ==> th[dv[d]] && tv[dv[d]].Denom == d)
+        && (forall a RAddr :: ah[a] ==> th[av[a]] && tp_addr(tv[av[a]]) == a)
+// ... and every stored pair is the one both indexes point to: at most one pair per denomination and per contract
+specfunc reg_one(th RTpHas, tv RTpVal, dh RDmHas, dv RDmVal, ah RAmHas, av RAmVal) bool =
+        forall id RBytes :: th[id] ==> dh[tv[id].Denom] && dv[tv[id].Denom] == id && ah[tp_addr(tv[id])] && av[tp_addr(tv[id])] == id
+
+// ---- EVM side
+// deploys the module's ERC20 contract with the module account as creator: the address is the CREATE address for the module
+// account's current sequence; nothing but the EVM state changes. The decimals are the exponent of the last denom unit,
+// truncated to 8 bits (allow conv: an exponent > 255 is not refused by Metadata.Validate; cosmetic, the peg is unaffected).
+func (Keeper).DeployERC20Contract
+    let M = glob_types_ModuleAddress
+    requires units: UnitsNonNil(coinMetadata)
+    allow conv
+    modifies evm_state
+    call CallEVMWithData requires deploy: from == M && contract == nil && commit
+    ensures address: result.1 == nil ==> result.0 == create_address(M, acct_seq(old(evm_state), eaddr_bytes(M)))
+    ensures failed_nothing: ret(CallEVMWithData, 1, 1) == nil || evm_state == old(evm_state) || result.1 != nil
+// name / symbol / decimals as reported by the (possibly adversarial) contract: three static calls, no state change
+func (Keeper).QueryERC20
+    call CallEVM requires static: !commit && contract == old(contract) && from == glob_types_ModuleAddress
+    ensures true
+
+// ---- x/bank metadata
+// The metadata stored by x/bank for the coin's base denomination, if any, must equal the given one; if there is none the
+// given one is stored. Nothing else changes.
+func (Keeper).verifyMetadata
+    let B = coinMetadata.Base
+    requires units: UnitsNonNil(coinMetadata)
+    modifies bank_meta_has, bank_meta_val
+    ensures differs_refused: result == nil && old(bank_meta_has[coinMetadata.Base]) ==> MetaIs(coinMetadata, old(bank_meta_val[coinMetadata.Base]))
+    ensures same_accepted: old(bank_meta_has[coinMetadata.Base]) && MetaIs(coinMetadata, old(bank_meta_val[coinMetadata.Base])) ==> result == nil
+    ensures existing_kept: old(bank_meta_has[coinMetadata.Base]) ==> bank_meta_has == old(bank_meta_has) && bank_meta_val == old(bank_meta_val)
+    ensures absent_stored: !old(bank_meta_has[coinMetadata.Base]) ==> result == nil && bank_meta_has == upd(old(bank_meta_has), B, true)
+            && MetaIs(coinMetadata, bank_meta_val[B]) && (forall d string :: d != B ==> bank_meta_val[d] == old(bank_meta_val)[d])
+
+// Metadata for the coin representation of an ERC20 contract: base denomination and name are "erc20/<contract>", symbol is what
+// the contract reports; refused when x/bank already has metadata for that denomination or the denomination is registered.
+func (Keeper).CreateCoinMetadata
+    let D = create_denom(eaddr_str(contract))
+    modifies bank_meta_has, bank_meta_val
+    ensures fresh_denom: result.1 == nil ==> !old(bank_meta_has[create_denom(eaddr_str(contract))]) && !dm_has[D]
+    ensures value: result.1 == nil ==> result.0 != nil && fresh(result.0) && result.0.Base == D && result.0.Name == D
+            && len(result.0.DenomUnits) >= 1 && result.0.DenomUnits[0] != nil && result.0.DenomUnits[0].Denom == D && result.0.DenomUnits[0].Exponent == 0
+    ensures stored: result.1 == nil ==> bank_meta_has == upd(old(bank_meta_has), D, true) && MetaIs(*result.0, bank_meta_val[D])
+            && (forall d string :: d != D ==> bank_meta_val[d] == old(bank_meta_val)[d])
+    ensures failed: result.1 != nil ==> result.0 == nil && bank_meta_has == old(bank_meta_has) && bank_meta_val == old(bank_meta_val)
+
+// ---- registration
+// RegisterCoin: coin-origin pair. C10: the pair links exactly the coin's base denomination and the freshly deployed contract, is
+// owned by the module and enabled; pair store, denom index and address index are written for the same id; a denomination that is
+// already registered, the EVM denomination and a coin without supply are refused; the registry invariant is kept.
+func (Keeper).RegisterCoin
+    let M = glob_types_ModuleAddress
+    let B = coinMetadata.Base
+    let A = create_address(glob_types_ModuleAddress, acct_seq(old(evm_state), eaddr_bytes(glob_types_ModuleAddress)))
+    let id = tp_id(*result.0)
+    requires units: UnitsNonNil(coinMetadata)
+    requires inv: reg_inv(tp_has, tp_val, dm_has, dm_val, am_has, am_val) && reg_one(tp_has, tp_val, dm_has, dm_val, am_has, am_val)
+    // the CREATE address of a successful deployment held no contract before, in particular no registered token (EVM semantics)
+    requires new_address: !am_has[A]
+    modifies tp_has, tp_val, dm_has, dm_val, am_has, am_val, bank_meta_has, bank_meta_val, evm_state
+    call DeployERC20Contract requires checked: bank_supply[coinMetadata.Base] > 0 && coinMetadata == old(coinMetadata)
+    call DeployERC20Contract requires untouched: evm_state == old(evm_state) && tp_has == old(tp_has) && dm_has == old(dm_has) && am_has == old(am_has)
+    ensures c10_dup_denom: result.1 == nil ==> !old(dm_has[coinMetadata.Base])
+    // (no clause demands that the EVM denomination is refused: this fork registers a pair for it on purpose - RegisterERC20Extensions
+    // builds the WERC20 precompile for the pair whose Denom is the EVM denomination; see DESIGN.md §12.3, observation X2)
+    ensures c10_supply: result.1 == nil ==> bank_supply[B] > 0
+    ensures c10_metadata: result.1 == nil ==> bank_meta_has[B] && MetaIs(coinMetadata, bank_meta_val[B])
+            && (old(bank_meta_has[coinMetadata.Base]) ==> bank_meta_val == old(bank_meta_val) && bank_meta_has == old(bank_meta_has))
+    ensures c10_pair: result.1 == nil ==> result.0 != nil && fresh(result.0) && result.0.Denom == B && result.0.ContractOwner == 1 && result.0.Enabled
+            && tp_addr(*result.0) == A
+    ensures c10_indexes: result.1 == nil ==> tp_has == tp_put_has(old(tp_has), id) && tp_val == tp_put_val(old(tp_val), id, *result.0)
+            && dm_has == dm_put_has(old(dm_has), B) && dm_val == dm_put_val(old(dm_val), B, id)
+            && am_has == am_put_has(old(am_has), A) && am_val == am_put_val(old(am_val), A, id)
+    ensures c10_inv: result.1 == nil ==> reg_inv(tp_has, tp_val, dm_has, dm_val, am_has, am_val)
+    ensures c10_one_pair: result.1 == nil ==> reg_one(tp_has, tp_val, dm_has, dm_val, am_has, am_val)
+    ensures failed: result.1 != nil ==> result.0 == nil && tp_has == old(tp_has) && tp_val == old(tp_val) && dm_has == old(dm_has)
+            && dm_val == old(dm_val) && am_has == old(am_has) && am_val == old(am_val)
+
+// RegisterERC20: ERC20-origin pair for an existing contract; the coin denomination is "erc20/<contract>".
+func (Keeper).RegisterERC20
+    let D = create_denom(eaddr_str(contract))
+    let id = tp_id(*result.0)
+    requires inv: reg_inv(tp_has, tp_val, dm_has, dm_val, am_has, am_val) && reg_one(tp_has, tp_val, dm_has, dm_val, am_has, am_val)
+    modifies tp_has, tp_val, dm_has, dm_val, am_has, am_val, bank_meta_has, bank_meta_val
+    ensures c10_dup_contract: result.1 == nil ==> !old(am_has[contract])
+    ensures c10_dup_denom: result.1 == nil ==> !old(dm_has[create_denom(eaddr_str(contract))])
+    ensures c10_metadata: result.1 == nil ==> !old(bank_meta_has[create_denom(eaddr_str(contract))]) && bank_meta_has[D] && mf_base(bank_meta_val[D]) == D
+    ensures c10_pair: result.1 == nil ==> result.0 != nil && fresh(result.0) && result.0.Denom == D && result.0.ContractOwner == 2 && result.0.Enabled
+            && tp_addr(*result.0) == contract
+    ensures c10_indexes: result.1 == nil ==> tp_has == tp_put_has(old(tp_has), id) && tp_val == tp_put_val(old(tp_val), id, *result.0)
+            && dm_has == dm_put_has(old(dm_has), D) && dm_val == dm_put_val(old(dm_val), D, id)
+            && am_has == am_put_has(old(am_has), contract) && am_val == am_put_val(old(am_val), contract, id)
+    ensures c10_inv: result.1 == nil ==> reg_inv(tp_has, tp_val, dm_has, dm_val, am_has, am_val)
+    ensures c10_one_pair: result.1 == nil ==> reg_one(tp_has, tp_val, dm_has, dm_val, am_has, am_val)
+    ensures failed: result.1 != nil ==> result.0 == nil && tp_has == old(tp_has) && tp_val == old(tp_val) && dm_has == old(dm_has)
+            && dm_val == old(dm_val) && am_has == old(am_has) && am_val == old(am_val)
+
+// ---- toggling
+// ToggleConversion flips exactly `Enabled` of exactly the pair addressed by token (contract address or denomination): the stored
+// pair keeps its id, contract, denomination and owner, no other pair and no index changes.
+func (Keeper).ToggleConversion
+    let has = ite(is_hex_address(token), am_has[hex_to_addr(token)], dm_has[token])
+    let id = ite(is_hex_address(token), am_val[hex_to_addr(token)], dm_val[token])
+    let P = old(tp_val[ite(is_hex_address(token), am_val[hex_to_addr(token)], dm_val[token])])
+    requires inv: reg_inv(tp_has, tp_val, dm_has, dm_val, am_has, am_val)
+    modifies tp_has, tp_val
+    // an index entry always points to a stored pair (reg_inv): the second not-found branch is dead
+    unreachable return: return types.TokenPair{}, errorsmod.Wrapf(#2
+    ensures c10_registered: result.1 == nil ==> old(has) && old(tp_has[id])
+    ensures c10_found: old(has) ==> result.1 == nil
+    ensures c10_flipped: result.1 == nil ==> result.0.Enabled == !P.Enabled && result.0.Erc20Address == P.Erc20Address && result.0.Denom == P.Denom
+            && result.0.ContractOwner == P.ContractOwner
+    ensures c10_stored: result.1 == nil ==> tp_val == upd(old(tp_val), id, result.0) && tp_has == old(tp_has)
+    ensures c10_inv: reg_inv(tp_has, tp_val, dm_has, dm_val, am_has, am_val)
+    ensures failed: result.1 != nil ==> tp_has == old(tp_has) && tp_val == old(tp_val)
+@*/
